@@ -19,7 +19,8 @@ from .common import Ctx, python_flags
 RULE = ("a case = capacity 1-6, period (even µs; odd µs only in the model=code stream), align point, list/numpy "
         "container, 1-25 updates placed relative to the current window (in order, inside, skipping, jump >= capacity, "
         "around the reject boundary; on/next to the grid and around the half-way point; value/None/NaN), then after "
-        "EVERY update gaps/counts/oldest/newest and at the end 40-324 index windows, 37+ datetime windows, at(i) for "
+        "EVERY update gaps/counts/oldest/newest and at the end 40-324 index windows, 37+ datetime windows (fill_value NaN, "
+        "0, 0.0, negative, fractional, None), at(i) for "
         "|i| <= cap+2, at(dt); thorough adds the exhaustive state graph of capacity 3 over 9 slots x {value,None,NaN} "
         "to depth 6; non-trivial = >= 3 accepted updates incl. a missing value, a skipped slot, an out-of-order or an "
         "off-grid timestamp; distinct by canonical JSON hash")
@@ -165,7 +166,9 @@ def exhaustive_queries(cap: int, period: int, align: int) -> list[dict]:
             for b in ts[::4]:
                 qs.append({"k": "wts", "a": a, "b": b, "fill": None})
         qs += [{"k": "wts", "a": a, "b": a + d, "fill": None} for a in ts for d in (200_000, 1_000_000)]
-        qs += [{"k": "widx", "i": None, "j": None, "fill": "raw"}, {"k": "widx", "i": None, "j": None, "fill": g.FILL_NUM}]
+        qs += [{"k": "widx", "i": None, "j": None, "fill": "raw"}]
+        qs += [{"k": "widx", "i": None, "j": None, "fill": f, "fi": fi} for f, fi in g.FILLS]
+        qs += [{"k": "wts", "a": align - period, "b": align + 10 * period, "fill": f, "fi": fi} for f, fi in g.FILLS]
         qs += [{"k": "ati", "i": i} for i in range(-cap - 1, cap + 2)]
         qs += [{"k": "att", "t": t} for t in ts]
         _EXQ[key] = qs
